@@ -11,7 +11,7 @@ JOBS = 2
 RERUNS = {'quick': 30, 'thorough': 200}
 MAX_HANDLE = 40
 FIXTURE_KIND = 'suppr'
-QUICK_N = 2400
+QUICK_N = 4500
 CPU_LIMIT = 10
 DEP_EXEMPT = False
 LEGAL_READS = ('abidiff-suppr', 'abidw-suppr', 'abidiff-suppr-shapes')
